@@ -262,7 +262,6 @@ func (p *Policer) processNodes(ctx context.Context, plc *processPlacementContext
 		// prevent spam with new replicas.
 		// However, additional copies should not be removed in this case,
 		// because we can remove the only copy this way.
-		plc.checkedNodes.submitReplicaHolder(node)
 		shortage--
 		uncheckedCopies++
 
